@@ -274,7 +274,7 @@ def isEnum (e : Entry) : Except CErr Bool :=
       | some t => if typeTags.contains t.name then .ok (tokens t) else .error .illegalConvertion
     pure (toks.contains (c!"Enum"))
 
-/-- `DeclableMatcher.is_decl_this_var` (`primary.py:744-766`) -/
+/-- `DeclableMatcher.is_decl_this_var` (`primary.py:745-768`, after fix 4e765ba: the receiver is `self`, `DSN.root(tokens) == 'self'`) -/
 def isDeclThisVar (root : Entry) (p : Path) (e : Entry) : Except CErr Bool :=
   let tags := tagsOf root p
   match fromEnd tags 5 with
@@ -292,7 +292,7 @@ def isDeclThisVar (root : Entry) (p : Path) (e : Entry) : Except CErr Bool :=
         | some methodName =>
           let toks := tokens e
           let inDeclVar := (fromEnd tags 3 == some (c!"assign") || fromEnd tags 3 == some (c!"anno_assign")) && fromEnd tags 2 == some (c!"assign_namelist")
-          .ok (methodName == c!"__init__" && inDeclVar && (Str.startsWith toks (c!"self") && dsnElemCounts toks == 2) && isReceiver p)
+          .ok (methodName == c!"__init__" && inDeclVar && (dsnElemCounts toks == 2 && (dsnElements toks).head? == some (c!"self")) && isReceiver p)
 
 /-- `Terminal.match_terminal(via, allow_tags)` for a `number` entry: every token below carries an allowed terminal name -/
 def numberTerminals (e : Entry) (allow : List Str) : Bool := e.children.all fun c => allow.contains c.name
